@@ -28,7 +28,7 @@ def main() -> int:
     if quick:
         tp = [x for x in recs if x.get("origin", "").startswith("tpcds")]
         recs = [x for x in recs if not x.get("origin", "").startswith("tpcds")] + r.sample(tp, 6)
-    recs = recs + gen_scripts.gen_records(r, 250 if quick else 3000) + \
+    recs = recs + gen_scripts.gen_records(r, 250 if quick else 3000) + gen_scripts.gen_mixed_depth(r, 80 if quick else 1000) + \
         [{"sql": s, "dialect": "ansi", "metadata": None, "config": {}, "origin": "special"} for s in gen_scripts.SPECIAL]
     res = buildtie.run(recs, want_cy=True)
     disagreements, spec_failures, known_hits = [], [], []
